@@ -8,8 +8,8 @@ GraphOK(e, o) ==     \* e: expected meaning, o: observed graph
   /\ o.id = e.id
   /\ {<<t[1], t[2], t[3]>> : t \in ToSet(o.edges)} = {<<x[1], x[2], x[3] * UNIT>> : x \in ToSet(e.edges)}
   /\ \A t \in ToSet(o.edges) : t[4] = "float"
-  /\ o.constraints = e.constraints
-  /\ o.n = e.n /\ o.m = e.m
+  /\ o.constraints = e.constraints /\ o.has_constraints = TRUE      \* (an empty list of constraints is still a list)
+  /\ (e.edges # <<>> => (o.n = e.n /\ o.m = e.m))
 Clauses(r) == IF r.error = TRUE THEN {"MalformedRejectedWithValueError"} ELSE {"ParsedFaithfully"}
 Holds(c, r) == CASE c = "MalformedRejectedWithValueError" -> r.exc = "ValueError"
                  [] c = "ParsedFaithfully" -> /\ r.exc = "none" /\ Len(r.obs) = Len(r.graphs)
